@@ -3,7 +3,7 @@
 #   in a scratch worktree of /repo HEAD: demo passes without the patch; with the patch: builds, 129 unit tests pass, demo fails.
 # On success copies patch + demo + meta.json to /verif/seeded/<Cxx>-<A|B>/ .  The scratch worktree is kept at /tmp/confirm for reuse
 # (incremental builds) and must be removed with `git -C /repo worktree remove --force /tmp/confirm` at the end of a session.
-id="$1"; v="$2"; src=/tmp/wt/out/$id/$v; wt=/tmp/confirm
+id="$1"; v="$2"; src=${SEEDSRC:-/tmp/wt/out}/$id/$v; wt=/tmp/confirm
 log=/tmp/confirm-$id-$v.log; : > $log
 if [ ! -d $wt ]; then git -C /repo worktree add --detach $wt HEAD >>$log 2>&1; fi
 git -C $wt checkout -q --detach $(git -C /repo rev-parse HEAD) >>$log 2>&1; git -C $wt checkout -- . ; git -C $wt clean -fdq -e _build
